@@ -255,7 +255,8 @@ def summarise(rep):
 def run_stress(work, seed, ms, mode="stress", workers=16):
     rc, out = go_test(work, ["assets_test.go", "race_test.go"], "^TestVerifC18Race$",
                       {"VERIF_C18_MODE": mode, "VERIF_C18_MS": str(ms), "VERIF_SEED": str(seed),
-                       "VERIF_C18_WORKERS": str(workers)}, race=True, timeout=900 + ms // 1000)
+                       "VERIF_C18_WORKERS": str(workers)}, race=True, timeout=900 + ms // 1000,
+                      extra_args=["-v"])     # -v: the C18-DONE line must be printed also when the run passes (no race report)
     done = re.search(r"^C18-DONE ops=(\d+) panics=(\d+) (.*)$", out, re.M)
     res = {"rc": rc, "out": out, "mode": mode, "seed": seed, "ms": ms,
            "ops": int(done.group(1)) if done else 0,
